@@ -7,6 +7,7 @@ package oracle
 import (
 	"bufio"
 	"bytes"
+	"compress/gzip"
 	"crypto/sha256"
 	"encoding/hex"
 	"encoding/json"
@@ -511,4 +512,71 @@ func BuildMatchTable(sys string, reqs, cands []string) (*MatchTable, error) {
 		return nil, fmt.Errorf("no matching reference for %s", sys)
 	}
 	return t, nil
+}
+
+// PythonQuery sends a query to the packaging driver: python3-vt carries packaging 26.x, the system python3 pip's
+// vendored 21.3 (alt).
+func PythonQuery(alt bool, query map[string]any) (map[string]json.RawMessage, error) {
+	py := "python3-vt"
+	if alt {
+		py = "python3"
+	}
+	in, _ := json.Marshal(query)
+	cmd := exec.Command(py, filepath.Join(oracleDir(), "python", "pep440_oracle.py"))
+	cmd.Stdin = bytes.NewReader(in)
+	var stderr bytes.Buffer
+	cmd.Stderr = &stderr
+	out, err := cmd.Output()
+	if err != nil {
+		return nil, fmt.Errorf("%s: %v: %s", py, err, firstLine(stderr.String()))
+	}
+	var m map[string]json.RawMessage
+	if err := json.Unmarshal(out, &m); err != nil {
+		return nil, err
+	}
+	return m, nil
+}
+
+// StringTable is a committed reference answer per domain string.
+type StringTable struct {
+	Tool    string   `json:"tool"`
+	Domain  string   `json:"domain_sha256"`
+	Rows    []string `json:"rows"`
+	AltTool string   `json:"alt_tool,omitempty"`
+	AltRows []string `json:"alt_rows,omitempty"`
+}
+
+func stringTablePath(name string) string {
+	return filepath.Join(core.Root, "oracle", "tables", name+".json.gz")
+}
+
+// SaveStringTable writes a gzip-compressed table.
+func SaveStringTable(name string, t *StringTable) error {
+	var buf bytes.Buffer
+	zw, _ := gzip.NewWriterLevel(&buf, gzip.BestCompression)
+	if err := json.NewEncoder(zw).Encode(t); err != nil {
+		return err
+	}
+	zw.Close()
+	return os.WriteFile(stringTablePath(name), buf.Bytes(), 0o644)
+}
+
+// LoadStringTable reads a table and checks that it was made for the domain.
+func LoadStringTable(name string, domain ...[]string) (*StringTable, error) {
+	b, err := os.ReadFile(stringTablePath(name))
+	if err != nil {
+		return nil, err
+	}
+	zr, err := gzip.NewReader(bytes.NewReader(b))
+	if err != nil {
+		return nil, err
+	}
+	var t StringTable
+	if err := json.NewDecoder(zr).Decode(&t); err != nil {
+		return nil, err
+	}
+	if t.Domain != DomainHash(domain...) {
+		return nil, fmt.Errorf("reference table %s was generated for a different domain; run ./check --gen-tables", name)
+	}
+	return &t, nil
 }
